@@ -79,6 +79,20 @@ CHECKS = {
     ),
 }
 
+# what the engines learnt from the independently seeded changes (DESIGN.md section 10)
+ADDENDA = {
+    "C03": "History elements: a boundary value linked to a user array and changed in place between evaluations of the same objects; the numba operator of a sibling condition built first in the same process; anti-periodic conditions; operator objects called with complex data after real data. Thorough tier: the route oracle again on a sample of plans with real JIT.",
+    "C04": "Fields take labels from a pool of three (py-pde compares labels before it re-uses prepared functions); motifs: one rank-agnostic equation on [scalar, vector] and [vector, scalar], one equation with conditions given by name on two grids that differ in one attribute only (periodicity, bounds differing by parts per million, tiny bounds); sibling conditions incl. anti-periodic, Robin with another constant, closures from one factory; one shared user_funcs dictionary.",
+    "C07": "A quarter of the plans carry an earlier use of the same equation, initial-state, solver and sometimes controller objects (another range, a smaller step); equations with a post-step hook that has memory; Milstein solver on library equations; a stepper that does not perform one step of dt when asked for exactly that is a violation of its own.",
+    "C08": "Adaptive solvers include the scipy solver (exact service of every scheduled time).",
+    "C13": "Interpretation given to the constructor or assigned afterwards; demographic-type variance that vanishes where its derivative does not; on the numba path a step may not use fewer normal numbers than the state has noisy entries.",
+    "C15": "copy.deepcopy and pickle as kinds of copy; collections from lists, tuples and mappings; 8% single-precision plans (float32/complex64, operations without arithmetic).",
+    "C17": "Operator object used a second time with data of the other dtype; a persistent solver object first run on a grid differing only in the periodicity of one axis; the grid object must be unchanged by decomposition; setup invariants (tiling, split/combine, neighbours, link flags) also for decompositions of up to 160 sub-grids, far beyond the number of simulated ranks.",
+    "C20": "Sessions may switch from real to complex fields; 40% of the histories verify lightly (stored arrays compared directly) so that the oracle's own reads cannot mask a broken read path.",
+}
+for _k, _v in ADDENDA.items():
+    CHECKS[_k]["text"] += " " + _v
+
 
 def main():
     checks = []
